@@ -11,6 +11,7 @@ from __future__ import annotations
 
 import itertools
 import math
+import os
 
 import numpy as np
 
@@ -33,7 +34,8 @@ REQUIRED_BUCKETS = {"quick": ["tpl:boundary", "tpl:affine", "tpl:power", "tpl:pa
                               "place:start", "place:after-untouched", "place:after-angle", "dim:1d", "dim:2d",
                               "pd:feeds-intermediate", "validity-boundary-crossed", "lane:asan", "new-parameters:untyped",
                               "new-parameters:untyped-and-no-volume-parameter-left", "same-name-second-definition", "new-parameter-keeps-base-name",
-                              "same-source-other-defaults", "magnetic"]}
+                              "same-source-other-defaults", "magnetic", "pd:mesh>100", "pd:amplitude-entry",
+                              "translation-helper-in-extra-source-file", "translation-helper-in-extra-source-file:hollow-base"]}
 REQUIRED_BUCKETS["thorough"] = REQUIRED_BUCKETS["quick"]
 
 BASES = ["sphere", "cylinder", "ellipsoid", "core_shell_sphere", "hollow_cylinder", "barbell", "capped_cylinder",
@@ -247,6 +249,23 @@ def run_case(case, rec):
     if any(n[0] in repl for n in new):
         rec.bucket("new-parameter-keeps-base-name")
     text = "\n".join("        %s = %s" % (lhs, strip_outer(C(ast)) if lhs.startswith("t_") else C(ast)) for lhs, ast in st)
+    # every fifth case puts a helper function for the translation into an additional C source file
+    extra_source = None
+    if k % 5 == 3 and st:
+        hdir = os.path.join(os.environ.get("RTM_SCRATCH", "/tmp"), "c16helpers")
+        os.makedirs(hdir, exist_ok=True)
+        extra_source = os.path.join(hdir, "rtm_helper_%04d.c" % k)
+        with open(extra_source, "w") as f_:
+            f_.write("double rtm_pass_%d(double x);\ndouble rtm_pass_%d(double x)\n{\n    return x;\n}\n" % (k, k))
+        lines_ = text.split("\n")
+        lhs_, rhs_ = lines_[-1].split(" = ", 1)
+        lines_[-1] = "%s = rtm_pass_%d(%s)" % (lhs_, k, rhs_)
+        text = "\n".join(lines_)
+        rec.bucket("translation-helper-in-extra-source-file")
+        if bi.id in ("vesicle", "hollow_cylinder"):
+            rec.bucket("translation-helper-in-extra-source-file:hollow-base")
+    src_kw = dict(source=[os.path.basename(extra_source)],
+                  filename=os.path.join(os.path.dirname(extra_source), "rtm_rep_%04d.py" % k)) if extra_source else {}
     untouched = [p for p in bi.parameters.kernel_parameters if p.name not in repl]
     angles = [p.name for p in bi.parameters.orientation_parameters]
     place = ["default", "start", "after-untouched", "after-angle"][(k // 5) % 4]
@@ -265,7 +284,7 @@ def run_case(case, rec):
         ia = {angles[-1]: names_new}
     rec.bucket("place:" + place)
     try:
-        info = sascore.reparameterize(bi, new, text, insert_after=ia, name="rtm_rep_%04d" % k)
+        info = sascore.reparameterize(bi, new, text, insert_after=ia, name="rtm_rep_%04d" % k, **src_kw)
     except Exception as exc:
         rec.check("reparameterize_accepts_valid_definition", False,
                   {"base": base, "translation": text, "insert_after": ia, "exception": repr(exc)})
@@ -360,7 +379,7 @@ def run_case(case, rec):
             new2 = [n2[:4] + [n1[4]] + n2[5:] for n1, n2 in zip(new, new2)]
             text2 = "\n".join("        %s = %s" % (lhs, strip_outer(C(ast)) if lhs.startswith("t_") else C(ast)) for lhs, ast in st2)
             if text2 != text:
-                info2 = sascore.reparameterize(bi, new2, text2, insert_after=ia, name="rtm_rep_%04d" % k)
+                info2 = sascore.reparameterize(bi, new2, text2, insert_after=ia, name="rtm_rep_%04d" % k, **src_kw)
                 model2 = sascore.build_model(info2, platform="dll")
                 newvals2 = {n[0]: float(n[2]) for n in new2}
                 tr2, _ = translate(st2, newvals2, {kk: vv for kk, vv in basevals.items() if kk not in repl})
@@ -387,7 +406,7 @@ def run_case(case, rec):
         # limits of the new parameters: left at their defaults, the new parameters take *this* definition's values
         if tpl in ("affine", "pair"):
             new3 = [n_[:2] + [float(n_[2])*1.3, [0, float(n_[2])*1.3*4.0]] + n_[4:] for n_ in new]
-            info3 = sascore.reparameterize(bi, new3, text, insert_after=ia, name="rtm_rep_%04d" % k)
+            info3 = sascore.reparameterize(bi, new3, text, insert_after=ia, name="rtm_rep_%04d" % k, **src_kw)
             model3 = sascore.build_model(info3, platform="dll")
             d3 = {n_[0]: float(n_[2]) for n_ in new3}
             tr3, _ = translate(st, d3, {kk: vv for kk, vv in basevals.items() if kk not in repl})
@@ -414,10 +433,18 @@ def run_case(case, rec):
         if any(p.name in feeds for p in chosen):
             rec.bucket("pd:feeds-intermediate")
         wide = False
+        big = (k % 4 == 2)
         for p in chosen:
-            sas.add_pd(pdp, p, ["gaussian", "schulz", "uniform"][int(rng.integers(3))], int(rng.integers(3, 7)),
+            sas.add_pd(pdp, p, ["gaussian", "schulz", "uniform"][int(rng.integers(3))],
+                       (int(rng.integers(11, 14)) if len(chosen) > 1 else int(rng.integers(101, 140))) if big else int(rng.integers(3, 7)),
                        float(rng.uniform(0.25, 0.45)) if wide else float(rng.uniform(0.05, 0.2)), 2.0)
+        if big:
+            # more than 100 mesh points: the compiled kernel is re-entered part-way through the mesh
+            rec.bucket("pd:mesh>100")
         Ipd = np.asarray(direct_model.call_kernel(kr, dict(pdp)), float)
+        modes_b = len(bi.radius_effective_modes or [])
+        mode_pd = int(rng.integers(1, modes_b + 1)) if modes_b else 0
+        Fpd = direct_model.call_Fq(kr, dict(pdp, radius_effective_mode=mode_pd))
         mesh = direct_model.get_mesh(info, pdp, dim=dim)
         cp = info.parameters.call_parameters
         npar = info.parameters.npars
@@ -425,7 +452,7 @@ def run_case(case, rec):
         pnames = [p.name for p in cp[2:2 + npar]]
         braw = sas.raw(bi)
         oracle = sas.Oracle(bi)
-        sw, sws, f2 = [], [], [[] for _ in range(len(q[0]))]
+        sw, sws, swf, swr, f2 = [], [], [], [], [[] for _ in range(len(q[0]))]
         ninvalid = 0
         axes = [list(zip([float(x) for x in np.ravel(c[1])], [float(x) for x in np.ravel(c[2])])) for c in cols]
         view = {a: float(pdp.get(a, 0.0)) for a in angles}
@@ -450,6 +477,9 @@ def run_case(case, rec):
                 continue
             sw.append(w)
             sws.append(w*braw.shell_volume(vec))
+            swf.append(w*braw.form_volume(vec))
+            if mode_pd:
+                swr.append(w*braw.radius_effective(mode_pd, vec))
             for j in range(len(q[0])):
                 qq = float(q[0][j]) if dim == "1d" else (float(q[0][j]), float(q[1][j]))
                 f2[j].append(w*oracle.F2(vec, qq, dim, view, jitter))
@@ -466,6 +496,20 @@ def run_case(case, rec):
         rec.check("dispersity_is_weighted_mean_of_base", okp,
                   None if okp else dict(ctx, dispersed=[p.name for p in chosen], observed=Ipd, expected=exp,
                                         invalid_points=ninvalid, max_rel_err=core.maxrel(Ipd, exp, 1e-12*sc2)))
+        if W > 0 and Fpd is not None and not any(kk.endswith("_M0") and vv for kk, vv in pdp.items()):
+            # the amplitude entry point over the same mesh: <F^2>, effective radius, shell volume, form:shell ratio
+            form = math.fsum(swf)/W
+            expF2 = np.array([math.fsum(x) for x in f2])/W
+            okq = core.close(np.asarray(Fpd[1], float), expF2, 1e-9, 1e-12*float(np.max(np.abs(expF2))))
+            okq = okq and core.close(float(Fpd[3]), shell if shell else 1.0, 1e-10)
+            okq = okq and (not shell or core.close(float(Fpd[4]), form/shell, 1e-10))
+            if mode_pd:
+                okq = okq and core.close(float(Fpd[2]), math.fsum(swr)/W, 1e-10)
+            rec.check("dispersity_is_weighted_mean_of_base", okq,
+                      None if okq else dict(ctx, entry="call_Fq", mode=mode_pd, dispersed=[p.name for p in chosen],
+                                            mesh_points=len(sw), observed=[Fpd[1], Fpd[2], Fpd[3], Fpd[4]],
+                                            expected=[expF2, math.fsum(swr)/W if mode_pd else None, shell, form/shell if shell else None]))
+            rec.bucket("pd:amplitude-entry")
     rec.set_shape((base, tpl, place, dim, sorted(kk for kk in newvals)), nontrivial=bool(repl))
     if k < 3:
         rec.observe(base=base, template=tpl, translation=text, insert_after=ia, I=I, base_I=Ib)
